@@ -199,6 +199,71 @@ fn roundtrip_text(text: &str, want_cmr: &[u8; 32], want_bytes: &[u8], out: &mut 
 fn run(ctx: &Ctx, out: &mut Out) {
     leg_programs(ctx, out);
     leg_tokens(ctx, out);
+    leg_jets(ctx, out);
+}
+
+/// `comp (comp witness jet) unit` for every Core jet: the rendering annotates the witness with the
+/// jet's source type, so every type abbreviation the printer knows (2^8 .. 2^512, products of them,
+/// options) goes through the printer and back through the type parser.
+fn leg_jets(ctx: &Ctx, out: &mut Out) {
+    let leg = "jets-text";
+    let fam = Fam::Core;
+    let mut own = false;
+    for j in 0..fam.n_jets() as u16 {
+        // units of eight jets
+        if j % 8 == 0 {
+            own = ctx.mine();
+        }
+        if !own {
+            continue;
+        }
+        let dag: Dag = vec![
+            Node { sym: Sym::Witness, l: 0, r: 0 },
+            Node { sym: Sym::Jet(j), l: 0, r: 0 },
+            Node { sym: Sym::Comp, l: 0, r: 1 },
+            Node { sym: Sym::Unit, l: 0, r: 0 },
+            Node { sym: Sym::Comp, l: 2, r: 3 },
+        ];
+        let label = || format!("comp (comp witness {}) unit", fam.jet(j));
+        if !ctx.begin(leg, &label) {
+            continue;
+        }
+        out.evaluations += 1;
+        out.states += 1;
+        out.nontrivial += 1;
+        let r = guard(|| -> Result<(), (String, String)> {
+            let p = Prog::new(&dag, fam).ok_or(("jets-text:host".to_string(), "reference cannot type the one-jet program".to_string()))?;
+            let commit = p.to_commit().map_err(|e| ("jets-text:host".to_string(), e))?;
+            let want_arrows: Vec<String> = commit.as_ref().post_order_iter::<InternalSharing>().map(|d| format!("{}", d.node.arrow())).collect();
+            let text = Forest::from_program(Arc::clone(&commit)).string_serialize();
+            out.transitions += 2;
+            match parse_twice(&text)? {
+                Ok(Some(q)) => {
+                    if q.cmr != commit.cmr().to_byte_array() || q.bytes != commit.to_vec_without_witness() {
+                        return Err(("render:reparse-differs:jet".into(), format!("rendered text parses to another program:\n{text}")));
+                    }
+                    let (mut a, mut b) = (want_arrows, q.arrows);
+                    a.sort();
+                    b.sort();
+                    if a != b {
+                        return Err(("render:reparse-types:jet".into(), format!("node arrows differ after the round trip; rendered text:\n{text}")));
+                    }
+                    Ok(())
+                }
+                Ok(None) => Err(("render:reparse-ok-without-main:jet".into(), format!("rendered text parses to a forest without `main`:\n{text}"))),
+                Err(e) => Err(("render:does-not-reparse:jet".into(), format!("{e}; rendered text:\n{text}"))),
+            }
+        });
+        match r {
+            Ok(Ok(())) => {
+                out.outcome("jets-text:ok");
+                out.sample(leg, || (label(), "rendered text parses back to the same CMR, encoding and node arrows".into()));
+            }
+            Ok(Err((c, d))) => out.violation(&c, leg, label(), d),
+            Err(e) => out.violation(&panic_class(&e), leg, label(), e),
+        }
+        ctx.end();
+    }
 }
 
 fn leg_programs(ctx: &Ctx, out: &mut Out) {
